@@ -1,6 +1,6 @@
 (** * C16 — dependency diagnostics (cycles, scope mismatches) are exact and stable.
     Statements only. *)
-From PLS Require Import Check.C16 Proofs.Basics Proofs.Cycles Proofs.CyclesComplete.
+From PLS Require Import Check.C16 Proofs.Basics Proofs.Cycles Proofs.CyclesComplete Proofs.DepsSpec.
 
 (** a scope-mismatch warning on fixture F about dependency D is issued only if D is the
     definition resolution selects for F's file and is narrower than F ... *)
@@ -86,6 +86,28 @@ Proof.
   - intros a b Ha Hb _. rewrite E in Ha, Hb. destruct Ha as [<-|[]]. destruct Hb as [<-|[]]. reflexivity.
 Qed.
 
+(** the executable notions evaluated on the implementation's answers decide the relational
+    ones used above: [reachable] is reachability in at least one step (fuel proved
+    sufficient), [same_scc] is mutual reachability *)
+Theorem C16_spec_reachable_exact :
+  forall dk roots s d y, In d (defs s) ->
+    (In y (reachable dk roots s d) <-> exists w, dep_edge dk roots s d w /\ dep_reach dk roots s w y).
+Proof. exact reachable_iff. Qed.
+Print Assumptions C16_spec_reachable_exact.
+
+Theorem C16_spec_same_scc_exact :
+  forall dk roots s d d', In d (defs s) -> In d' (defs s) ->
+    (same_scc dk roots s d d' = true <-> (dep_reach dk roots s d d' /\ dep_reach dk roots s d' d)).
+Proof. exact same_scc_iff. Qed.
+Print Assumptions C16_spec_same_scc_exact.
+
+(** so the detector's model passes, on EVERY index with unique keys, the very predicate
+    the check applies to the implementation's answers case by case *)
+Theorem C16_model_meets_executable_spec :
+  forall dk roots s, keys_unique s -> cycles_ok dk roots s (cycles_cold dk roots s) = true.
+Proof. exact cycles_cold_meets_spec. Qed.
+Print Assumptions C16_model_meets_executable_spec.
+
 Check C16_cycles_sound :
   forall dk roots s, keys_unique s -> Forall (fun c => cycle_sound dk roots s c = true) (cycles_cold dk roots s).
 Check C16_cycles_complete :
@@ -93,3 +115,5 @@ Check C16_cycles_complete :
     forall d y, dep_edge dk roots s d y -> dep_reach dk roots s y d ->
       exists c, In c (cycles_cold dk roots s) /\
                 dep_reach dk roots s d (cy_fixture c) /\ dep_reach dk roots s (cy_fixture c) d.
+Check C16_model_meets_executable_spec :
+  forall dk roots s, keys_unique s -> cycles_ok dk roots s (cycles_cold dk roots s) = true.
